@@ -95,7 +95,7 @@ def plan(tier):
                                 shim=sname, shim_types=[l, r], oracle=sem_oracle(op, L, R), prop=PROP, via=sname,
                                 timeout=900, solvers=('cadical', 'kissat') if max(L.bits, R.bits) >= 16 else ('minisat',)))
     # quotient()
-    qinst = [('i8', -4, 'i8', -2), ('u8', 0, 'u8', -3), ('i16', -8, 'i8', 0)] + ([('i16', -4, 'i16', -12), ('i32', -16, 'i16', -4)] if thorough else [])
+    qinst = [('i8', -4, 'i8', -2), ('u8', 0, 'u8', -3), ('i16', -8, 'i8', 0), ('u8', -4, 'i8', -2), ('i8', 0, 'u8', -3)] + ([('i16', -4, 'i16', -12), ('i32', -16, 'i16', -4)] if thorough else [])
     for (l, el, r, er) in qinst:
         L, R = T(l), T(r)
         A = 'cnl::scaled_integer<%s, cnl::power<%d>>' % (cxx(l), el)
